@@ -906,9 +906,7 @@ class VectorExpression:
 
     def __rsub__(self, other: float | int) -> VectorExpression:
         # other - self
-        return VectorExpression(
-            [BinaryOp(_ensure_expr(other), expr, "-") for expr in self._expressions]
-        )
+        return _vector_reflected_op(self, other, "-")
 
     def __mul__(self, other: float | int) -> VectorExpression:
         """Scalar multiplication."""
@@ -923,9 +921,7 @@ class VectorExpression:
 
     def __rtruediv__(self, other: float | int) -> VectorExpression:
         """Right scalar division."""
-        return VectorExpression(
-            [BinaryOp(_ensure_expr(other), expr, "/") for expr in self._expressions]
-        )
+        return _vector_reflected_op(self, other, "/")
 
     def __neg__(self) -> VectorExpression:
         """Negate all elements."""
@@ -1240,9 +1236,7 @@ class VectorVariable:
 
     def __rsub__(self, other: float | int) -> VectorExpression:
         """Right subtraction: scalar - vector."""
-        return VectorExpression(
-            [BinaryOp(_ensure_expr(other), v, "-") for v in self._variables]
-        )
+        return _vector_reflected_op(self, other, "-")
 
     def __mul__(self, other: float | int) -> VectorExpression:
         """Scalar multiplication: x * 2."""
@@ -1258,9 +1252,7 @@ class VectorVariable:
 
     def __rtruediv__(self, other: float | int) -> VectorExpression:
         """Right scalar division: 1 / x."""
-        return VectorExpression(
-            [BinaryOp(_ensure_expr(other), v, "/") for v in self._variables]
-        )
+        return _vector_reflected_op(self, other, "/")
 
     def __neg__(self) -> VectorExpression:
         """Negate all elements: -x."""
@@ -1696,6 +1688,43 @@ def _vector_binary_op(
     ]
 
     return VectorExpression(result_exprs)
+
+
+def _vector_reflected_op(
+    right: VectorVariable | VectorExpression,
+    left: float | int | np.ndarray | list,
+    op: Literal["-", "/"],
+) -> VectorExpression:
+    """Reflected element-wise operation ``left op right`` (left is not a vector).
+
+    A scalar is broadcast; an array or list is applied element by element
+    (one scalar constant per element), with the same shape checks as the
+    non-reflected operators.
+    """
+    if isinstance(right, VectorVariable):
+        right_exprs: list[Expression] = list(right._variables)
+    else:
+        right_exprs = list(right._expressions)
+
+    if isinstance(left, (np.ndarray, list)):
+        arr = np.asarray(left)
+        if arr.ndim != 1:
+            raise WrongDimensionalityError(
+                context=f"vector {op}",
+                expected_ndim=1,
+                got_ndim=arr.ndim,
+            )
+        if len(arr) != len(right_exprs):
+            raise DimensionMismatchError(
+                operation=f"vector {op}",
+                left_shape=len(arr),
+                right_shape=len(right_exprs),
+            )
+        return VectorExpression(
+            [BinaryOp(Constant(val), e, op) for val, e in zip(arr, right_exprs)]
+        )
+
+    return VectorExpression([BinaryOp(_ensure_expr(left), e, op) for e in right_exprs])
 
 
 def vector_sum(vector: VectorVariable | VectorExpression) -> VectorSum | Expression:
